@@ -38,6 +38,8 @@ pub struct Acc {
     pub outcomes: std::collections::BTreeSet<String>,
     /// keys of violations beyond the fully kept representatives (so that none is lost to the cap)
     pub other_keys: std::collections::BTreeSet<String>,
+    /// (engine hash, model key) pairs collected for the global collision table of C05
+    pub pairs: Vec<(u64, [u8; 34])>,
 }
 
 pub const KEEP_VIOLATIONS: usize = 40;
@@ -120,6 +122,11 @@ impl Acc {
             if self.samples.len() < KEEP_SAMPLES {
                 self.samples.push(s);
             }
+        }
+        if self.pairs.is_empty() {
+            self.pairs = o.pairs;
+        } else {
+            self.pairs.extend(o.pairs);
         }
         self.notes.extend(o.notes);
         self.errors.extend(o.errors);
@@ -362,4 +369,106 @@ pub fn bfs(root: &Pos, depth: Option<u32>, _expand_cap: Option<u32>, space: &str
         d += 1;
     }
     (total, layers, complete)
+}
+
+// ---------------------------------------------------------------- Acc <-> JSON (worker processes report through a pipe)
+
+impl Acc {
+    pub fn to_json(&self) -> J {
+        json::obj(vec![
+            ("states", json::i(self.states)),
+            ("transitions", json::i(self.transitions)),
+            ("evaluations", json::i(self.evaluations)),
+            ("n_violations", json::i(self.n_violations)),
+            ("counts", json::counts_json(&self.counts)),
+            ("maxima", json::counts_json(&self.maxima)),
+            ("violations", J::Arr(self.violations.iter().map(|v| json::obj(vec![("key", json::s(v.key.clone())), ("what", json::s(v.what.clone())), ("replay", v.replay.clone())])).collect())),
+            ("other_keys", json::strs(&self.other_keys.iter().cloned().collect::<Vec<_>>())),
+            ("samples", J::Arr(self.samples.clone())),
+            ("notes", json::strs(&self.notes)),
+            ("errors", json::strs(&self.errors)),
+            ("outcomes", json::strs(&self.outcomes.iter().cloned().collect::<Vec<_>>())),
+        ])
+    }
+    pub fn from_json(j: &J) -> Acc {
+        let mut a = Acc::new();
+        let n = |k: &str| j.get(k).and_then(|x| x.as_i()).unwrap_or(0) as u64;
+        a.states = n("states");
+        a.transitions = n("transitions");
+        a.evaluations = n("evaluations");
+        a.n_violations = n("n_violations");
+        if let Some(J::Obj(v)) = j.get("counts") {
+            for (k, x) in v {
+                a.counts.insert(k.clone(), x.as_i().unwrap_or(0) as u64);
+            }
+        }
+        if let Some(J::Obj(v)) = j.get("maxima") {
+            for (k, x) in v {
+                a.maxima.insert(k.clone(), x.as_i().unwrap_or(0) as u64);
+            }
+        }
+        if let Some(J::Arr(v)) = j.get("violations") {
+            for x in v {
+                a.violations.push(Violation { key: x.get("key").and_then(|k| k.as_str()).unwrap_or("").to_string(), what: x.get("what").and_then(|k| k.as_str()).unwrap_or("").to_string(), replay: x.get("replay").cloned().unwrap_or(J::Null) });
+            }
+        }
+        let strv = |k: &str| -> Vec<String> { j.get(k).and_then(|x| x.as_arr()).map(|v| v.iter().filter_map(|s| s.as_str().map(|s| s.to_string())).collect()).unwrap_or_default() };
+        a.other_keys = strv("other_keys").into_iter().collect();
+        if let Some(J::Arr(v)) = j.get("samples") {
+            a.samples = v.clone();
+        }
+        a.notes = strv("notes");
+        a.errors = strv("errors");
+        a.outcomes = strv("outcomes").into_iter().collect();
+        a
+    }
+}
+
+/// Run `argv` worker processes of this same binary (or another flavour of it) in parallel, each
+/// printing one line `ACC <json>`; merge the accumulators. A worker that dies or prints no ACC
+/// line is a machinery error.
+pub fn run_workers(bin: &str, arglists: Vec<Vec<String>>, parallel: usize) -> Acc {
+    use std::process::{Command, Stdio};
+    let next = AtomicUsize::new(0);
+    let total = Mutex::new(Acc::new());
+    std::thread::scope(|sc| {
+        for _ in 0..parallel.min(arglists.len()).max(1) {
+            sc.spawn(|| loop {
+                let i = next.fetch_add(1, Relaxed);
+                if i >= arglists.len() {
+                    break;
+                }
+                let out = Command::new(bin).args(&arglists[i]).stdin(Stdio::null()).stderr(Stdio::piped()).output();
+                let mut acc = Acc::new();
+                match out {
+                    Ok(o) => {
+                        let text = String::from_utf8_lossy(&o.stdout);
+                        let mut found = false;
+                        for line in text.lines() {
+                            if let Some(rest) = line.strip_prefix("ACC ") {
+                                match json::parse(rest) {
+                                    Ok(j) => {
+                                        acc.merge(Acc::from_json(&j));
+                                        found = true;
+                                    }
+                                    Err(e) => acc.errors.push(format!("worker {:?}: bad ACC line: {}", arglists[i], e)),
+                                }
+                            }
+                        }
+                        if !found {
+                            let err = String::from_utf8_lossy(&o.stderr);
+                            acc.errors.push(format!("worker {:?} produced no result (status {:?}): {} {}", arglists[i], o.status.code(), text.lines().last().unwrap_or(""), err.lines().last().unwrap_or("")));
+                        }
+                    }
+                    Err(e) => acc.errors.push(format!("cannot start worker {}: {}", bin, e)),
+                }
+                total.lock().unwrap().merge(acc);
+            });
+        }
+    });
+    total.into_inner().unwrap()
+}
+
+pub fn self_exe() -> String {
+    std::env::current_exe().map(|p| p.to_string_lossy().to_string()).unwrap_or_else(|_| "/verif/target-checked/checked/harness".into())
 }
